@@ -3,7 +3,7 @@
 (* .from_jsonfile, validate_and_get_values, save_to_jsonfile) against the    *)
 (* clauses of CertLoadProps.  One trace =                                    *)
 (*   [id, o1, save, o2]  with  o = [outcome, root, targets : Seq(name),      *)
-(*        graph : Seq([name, by]), val, res : Seq([target, valid, what])]    *)
+(*        graph : [name -> [by]], val, res : Seq([target, valid, what])]     *)
 (* graph / targets are read from the loaded object itself, so the path to    *)
 (* the root is re-derived here, on what the program will really walk.        *)
 (* Step 1 judges the first load, step 2 the save ; load round trip.          *)
@@ -13,8 +13,8 @@ VARIABLES tid, l, bad
 tvars == <<tid, l, bad>>
 
 T == Traces[tid]
-GraphOf(o) == LET names == {o.graph[i].name : i \in 1..Len(o.graph)} IN
-              [n \in names |-> [by |-> (o.graph[CHOOSE i \in 1..Len(o.graph) : o.graph[i].name = n]).by]]
+\* the graph travels as a JSON object  name -> [by |-> name of its certifier]  (a function already)
+GraphOf(o) == o.graph
 Obs(o) == [outcome |-> o.outcome, root |-> o.root, targets |-> o.targets, graph |-> GraphOf(o),
            val |-> o.val, res |-> {o.res[i] : i \in 1..Len(o.res)}]
 
